@@ -19,6 +19,7 @@
 
 int snoopy_filter_exclude_spawns_of(char const * const arg);
 int snoopy_filtering_check_chain(char const * const filterChain);
+static int preset_errno;   /* hist step e: errno of the calling thread at every following call */
 
 static ssize_t slurp(const char *path, char *buf, size_t cap) {
     int fd = open(path, O_RDONLY); if (fd < 0) return -1;
@@ -88,11 +89,13 @@ static void report_calls(FILE *rep, const char *id, const char *argspec, int orp
         }
         eff[en] = 0;
         char *exact = malloc(en + 1); memcpy(exact, eff, en + 1);
+        errno = preset_errno;
         int r = snoopy_filter_exclude_spawns_of(exact);
         free(exact);
         int rc = r;
         if (!memchr(eff, ';', en) && en < 3000) {          /* the same call as the filter chain walker makes it */
             char *chain = malloc(en + 32); int pl = sprintf(chain, "exclude_spawns_of:"); memcpy(chain + pl, eff, en + 1);
+            errno = preset_errno;
             rc = snoopy_filtering_check_chain(chain);
             free(chain);
         }
@@ -132,6 +135,7 @@ static void hist_steps(FILE *rep, const char *id, char *steps) {
     char *save = 0; int k = 0;
     for (char *st = strtok_r(steps, ";", &save); st; st = strtok_r(0, ";", &save)) {
         if (st[0] == 'n' && st[1] == ':') { vbytes nm = parse_bytes(st + 2); prctl(PR_SET_NAME, nm.p); }
+        else if (st[0] == 'e') preset_errno = ERANGE;     /* a failed strtol/strtod/... earlier in the caller: errno is stale, never reset */
         else if (st[0] == 'z') close(0);                 /* the process (and its descendants) go on without descriptor 0 */
         else if (st[0] == 'c' && st[1] == ':') { char key[128]; snprintf(key, sizeof key, "%s#%d", id, k++); report_calls(rep, key, st + 2, 0); }
         else if (st[0] == 'f' || st[0] == 'F') {
